@@ -38,7 +38,7 @@ class Observation:
 
 def run_incremental(schema, doc, variables, value_fn, seed, p_async=0.5, policy='random', early=False, script=None,
                     stop=None, with_signal=False, rng=None, p_iter=0.2, p_item_async=0.2, max_pulls=200, harness_cls=Harness, source_burst=1,
-                    tof=False):
+                    tof=False, p_double=0.0, p_task=0.0):
     """stop: None | ('aclose', k) | ('abort', reason) | ('abort', reason, 'before') | ('cancel-pull', k)
 
     abort is an external scheduler action, enabled from the start; with 'before' the signal is already aborted when the
@@ -49,14 +49,17 @@ def run_incremental(schema, doc, variables, value_fn, seed, p_async=0.5, policy=
     import random
     rng = rng or random.Random(seed)
     sched = Scheduler(rng, policy=policy, script=script)
+    sched.p_double = p_double
     run = Run(sched)
     hz = harness_cls(sched, value_fn, seed, p_async=p_async, p_iter=p_iter, p_item_async=p_item_async, schema=schema,
                      **({'hide_typename': True, 'p_type_async': 0.5} if tof else {}))
     hz.source_burst = source_burst
+    hz.p_task = p_task
     if tof:
         from . import aharness
         aharness._current[0] = hz
     obs = Observation()
+    obs.resolver_log = hz.log
     controller = AbortController() if (with_signal or (stop and stop[0] == 'abort')) else None
     executor_ref = {}
 
@@ -71,7 +74,19 @@ def run_incremental(schema, doc, variables, value_fn, seed, p_async=0.5, policy=
                 sum(1 for i in hz.iterators if i.started and not i.exhausted), bool(early))
 
     abort_before = bool(stop and stop[0] == 'abort' and len(stop) > 2 and stop[2] == 'before')
-    if stop and stop[0] == 'abort' and not abort_before:
+    abort_in_resolver = bool(stop and stop[0] == 'abort' and len(stop) > 3 and stop[2] == 'in-resolver')
+    if abort_in_resolver:
+        # the n-th resolver invocation triggers the signal itself (a resolver that gives up on the whole operation): the
+        # abort lands in the middle of a synchronous pass, where no outside party could fire it
+        def abort_now():
+            obs.stopped = ('abort', sched.step)
+            obs.stop_step = sched.step
+            obs.state_at_stop = state_signature()
+            sched.freeze_gates = True
+            sched.externals.pop('abort', None)
+            controller.abort(stop[1])
+        hz.abort_at, hz.abort_fn = stop[3], abort_now
+    if stop and stop[0] == 'abort' and not abort_before and not abort_in_resolver:
         def do_abort():
             obs.stopped = ('abort', sched.step)
             obs.stop_step = sched.step
